@@ -102,6 +102,13 @@ func tierFor(prop, tier string) tierCfg {
 		if tier == "thorough" {
 			t.raceRuns = 40000
 		}
+	case "C07":
+		// concurrent first use: callers of one instant under real parallelism
+		t.race = true
+		t.raceRuns = 3000
+		if tier == "thorough" {
+			t.raceRuns = 40000
+		}
 	case "C15":
 		t.race = true
 		t.raceRuns = 3000
